@@ -75,8 +75,8 @@ seeded changes and which check catches which in §11.
   | K1 | `core::ch_width` | `ch_width(c) <= c.len_utf8()` for all 1,112,064 scalar values (Kani, loop-free) | C10, C05, C04 |
 
 * **Genuine defects found and repaired** (five `fix:` commits in `/repo`, §5): F1 (C02), F2 (C08), F5 (C20/C04) were
-  convicted by Verus obligations on the pinned text *and* by BEC; F3 (C11) and F4 (C18) by BEC. Five further findings
-  (KF1–KF5) are recorded as open known findings with reasons (§5).
+  convicted by Verus obligations on the pinned text *and* by BEC; F3 (C11) and F4 (C18) by BEC. Six further findings
+  (KF1–KF6) are recorded as open known findings with reasons (§5).
 * **What stays bounded.** Optimality proper in C03 (needs real arithmetic and total monotonicity), the relational
   statements (C09 independence, C13 end to end, C14, the round trip of C15/C16, agreement of `fill_inplace` with `wrap`,
   C08's second sentence), the real
@@ -93,7 +93,7 @@ w("""## 2. Architecture
   check                  ./check <Cxx> [--tier quick|thorough] [--seed N] | --replay <file>     (exit 0 / 1 VIOLATION / 2 undecided)
   setup.sh               builds bec in both feature flavours, warms Verus up
   MANIFEST.json          generated by tools/mkmanifest.py from tools/props.py
-  known_findings.json    fixed: F1–F5 (five `fix:` commits in /repo); open: KF1–KF5
+  known_findings.json    fixed: F1–F5 (five `fix:` commits in /repo); open: KF1–KF6
   contracts/u*.vrs       side-cars, one per unit (table in §0)
   contracts/prelude/     shared pieces (`//@include`): Options / LineEnding extracted from /repo, ANSI spec (`skip_len`, `dw`, `strip`),
                          UTF-8 position lemmas (`fresh.vrs`), ASCII-boundary lemmas, `lines()` byte model
@@ -263,13 +263,16 @@ still a VIOLATION):
   "dedent is idempotent" fails on such input, although the margin rule (which U9 proves) holds on both applications. Found by the
   sampled long-string pass (the exhaustive alphabet had `"\\r\\n"` but no lone `"\\r"`). Not repaired: dropping the stray CR or
   preserving the original line endings both change documented behaviour.
-* **KF5 (C05).** An escape sequence that contains a space (an OSC window title or hyperlink text, a CSI with an intermediate
-  space) under the ASCII-space separator: `wrap("\\x1b]0;a b\\x07cd", Options::new(3).word_separator(WordSeparator::AsciiSpace))`
-  `== ["\\x1b]0;a", "b\\x07cd"]` although the paragraph is 2 columns wide — the separator splits at the space inside the sequence
-  and the second piece is then measured as plain text (3 columns), so a paragraph that fits is not returned as one line. Not
-  repaired: the ASCII separator is documented to split at every space; teaching it about escape sequences is a feature, not a
-  minimal repair (the Unicode separator works on the stripped text and is not affected). The same input class was first
-  pointed out by a sub-agent (seed w4_C17_A).
+* **KF5 (C05) / KF6 (C14).** A well-formed escape sequence that a word-level operation cuts in two: it contains a space and the
+  ASCII-space separator is used (an OSC window title or hyperlink text, a CSI with an intermediate space), or it contains a
+  hyphen between alphanumerics and the hyphen splitter is used (a hyperlink to a hyphenated URL).
+  `wrap("\\x1b]0;a b\\x07cd", Options::new(3).word_separator(WordSeparator::AsciiSpace)) == ["\\x1b]0;a", "b\\x07cd"]` although the
+  paragraph is 2 columns wide — the pieces are measured as cut-off sequences / plain text, so a paragraph that fits is not returned
+  as one line (C05); and once the halves sit on different lines a second `fill` reads them as different text, so `fill` is not
+  idempotent (C14). Not repaired: the ASCII separator is documented to split at every space, the hyphen splitter at every hyphen
+  between alphanumerics; teaching them about escape sequences is a feature, not a minimal repair (the Unicode separator works on
+  the stripped text and never splits a sequence at a space). The input class was first pointed out by sub-agents (seeds w4_C17_A,
+  w6_C02_A). Both findings share one class tag.
 
 ## 6. Applicability statement
 
@@ -329,7 +332,7 @@ w("""## 9. Departures from the original plan
 | C15/C16 BEC | round trip fails with `break_words` on and an indent-only first line | **code violates C15/C16** | repair tried, upstream test pins the behaviour, reverted; known findings KF2/KF3 (§5) |
 | C18 BEC (new sampled pass) | `dedent` not idempotent on `"a\\r\\r\\n b"` | **code violates the corollary stated in C18** | known finding KF4 (§5), class-tagged |
 | C02 BEC (broad alphabet + OSC title with a space) | a line `indent ++ "\\r\\x1b]0;a"` too wide although it holds "more than one non-zero-width character" | check wrong: it counted the characters hidden inside the (cut-off) sequence as visible; the part after the indent has one visible character, C02's exception | visible characters are counted the way C10 defines the display width, also for sequences that are cut short |
-| C05 BEC (same alphabet) | a fitting paragraph with an OSC title is returned as two lines under the ASCII separator | **code violates the letter of C05** | known finding KF5 (§5), class-tagged |
+| C05, C14 BEC (same alphabet, and a hyperlink with a hyphenated URL) | a fitting paragraph with such a sequence is returned as two lines; `fill` is then not idempotent | **code violates the letter of C05 / C14** | known findings KF5, KF6 (§5), one class tag |
 | Verus → property mapping | a failed `requires` of a prelude callee was attributed to C04 only | machinery wrong | tags are read on any line of the failing span; `requires` lines carry tags |
 | probe | a `//@probe` inside `({ let …;` produced a syntax error that was reported as vacuity | machinery wrong | probe compile errors are distinguished from a verifying probe |
 | U1 / U11 | rlimit under some SMT seeds (would have been *undecided*, not an alarm) | proof brittle | opaque state predicate + step lemmas; lemma split |
@@ -360,6 +363,7 @@ Misses on first contact and what was strengthened (never by weakening a check):
 | 5 | w5_C07_A (`dedup()` of the width list in `WrapAlgorithm::wrap`) | the public dispatch was checked for C06 (partition) only; three or more listed widths never reached it | BEC contracts `C07.dispatch.first_fit` / `C03.dispatch.optimal_fit` (dispatch == algorithm called directly, width lists with equal neighbours); U17 now proves that the words and every listed width reach the algorithm unchanged |
 | 5 | w5_C20_A (ASCII fast path for cell widths in a new helper of `columns.rs`) | no escape sequence or zero-width character in the column alphabet; Verus undecided (unknown helper function) | `ESC[1m`, tab and a combining mark added to the column alphabet |
 | 5 | w5_C09_A (`split('\\n')` + `strip_suffix('\\r')` for CRLF) | CRLF only ran over an alphabet without a lone `\\r`; every other suite used LF | lone `\\r` in the CRLF alphabet; the broad-alphabet and random passes of every wrap suite now run each option combination with both line endings |
+| 6 | w6_C02_A (last piece of a split word gets `word.width - widths of the earlier pieces`) | only wrong when a split point falls inside an escape sequence; no sequence with a hyphen in the alphabets | hyperlink with a hyphenated URL added to the broad alphabet (which also surfaced known findings KF5/KF6) |
 
 **Verus on its own** (`tools/seedverus.py`, `seeded/VERUS.json`: each change applied to a scratch copy, only the Verus units run):
 a Verus obligation rejects 42 of the 77 changes; the others end *undecided* in Verus (a new construct without a spec, a
